@@ -1,9 +1,246 @@
 package main
 
-import "github.com/regclient/regclient/zzverif/vtrace"
+import (
+	"bytes"
+	"context"
+	"errors"
+	"fmt"
+	"io"
+	"log/slog"
+	"net/http"
+	"sort"
+	"sync"
+	"time"
 
-type upScn struct {
-	ID string `json:"id"`
+	"github.com/regclient/regclient/config"
+	"github.com/regclient/regclient/scheme/reg"
+	"github.com/regclient/regclient/types/ref"
+	"github.com/regclient/regclient/zzverif/simreg"
+	"github.com/regclient/regclient/zzverif/vtrace"
+)
+
+// ---- scenario (output of spec/RegHttpUploadGen.tla) ----
+
+type upReply struct {
+	K  string `json:"k"`  // 202 | 201 | 4xxLR | other | doerr
+	R  int    `json:"r"`  // offset the registry claims to hold (0: no Range header)
+	St string `json:"st"` // other: the upload status GET that follows: ok | fail
 }
 
-func runUp(s *upScn) *vtrace.Trace { return &vtrace.Trace{ID: s.ID} }
+type upScn struct {
+	ID        string    `json:"id"`
+	B         int       `json:"b"`
+	C         int       `json:"c"`
+	Script    []upReply `json:"script"`
+	Predicted string    `json:"predicted"`
+	R         int       `json:"R"`
+}
+
+const upUnit = 100 // bytes per offset unit of the spec
+
+type upRun struct {
+	s       *upScn
+	clk     *clock
+	mu      sync.Mutex
+	idx     int    // script entry of the logical PATCH in progress
+	lastKey string // the previous PATCH (URL + Content-Range)
+	resets  int    // attempts of the current logical PATCH answered with a reset
+	started bool
+	ta, tr  map[int]int64
+	capped  map[int]bool
+	counts  map[string]int
+	cap     int
+	active  int64
+	gid     int64
+}
+
+func (u *upRun) entry() upReply {
+	if len(u.s.Script) == 0 {
+		return upReply{K: "202"}
+	}
+	if u.idx >= len(u.s.Script) {
+		return u.s.Script[len(u.s.Script)-1] // the registry repeats itself for ever
+	}
+	return u.s.Script[u.idx]
+}
+
+func (u *upRun) intercept(rq *simreg.Request) *simreg.Reply {
+	now := u.clk.now()
+	u.mu.Lock()
+	defer u.mu.Unlock()
+	u.ta[rq.Seq], u.active = now, now
+	key := rq.Method + " " + rq.URL + " " + rq.Header.Get("Content-Range")
+	u.counts[key]++
+	if u.counts[key] > u.cap || rq.Seq > 40*u.cap {
+		u.capped[rq.Seq] = true
+		return &simreg.Reply{Err: errRunaway}
+	}
+	loc := rq.Path
+	if q := rq.Query.Encode(); q != "" {
+		loc += "?" + q
+	}
+	session := func(st int, r int) *simreg.Reply {
+		h := http.Header{"Location": {loc}, "Docker-Upload-UUID": {rq.Ref}}
+		if r > 0 {
+			h.Set("Range", fmt.Sprintf("0-%d", r*upUnit-1))
+		}
+		return &simreg.Reply{Status: st, Header: h}
+	}
+	switch rq.Class {
+	case "upload_patch":
+		// a PATCH identical to the previous one that was answered with a reset is a retry of the
+		// same logical request; anything else is the next logical request
+		if u.started && !(key == u.lastKey && u.resets > 0 && u.resets <= u.s.R && u.entry().K == "doerr") {
+			u.idx++
+			u.resets = 0
+		}
+		u.started, u.lastKey = true, key
+		e := u.entry()
+		switch e.K {
+		case "202":
+			return session(202, e.R)
+		case "201":
+			return session(201, e.R)
+		case "4xxLR":
+			return session(416, e.R)
+		case "other":
+			return &simreg.Reply{Status: 404, Body: []byte(`{"errors":[{"code":"BLOB_UPLOAD_UNKNOWN"}]}`)}
+		case "doerr":
+			u.resets++
+			return &simreg.Reply{Err: errors.New("model host: connection reset by peer")}
+		}
+		panic("c12drv: unknown upload reply " + e.K)
+	case "upload_get":
+		e := u.entry()
+		if e.K == "other" && e.St == "ok" {
+			return session(204, e.R)
+		}
+		return &simreg.Reply{Status: 404, Body: []byte(`{"errors":[{"code":"BLOB_UPLOAD_UNKNOWN"}]}`)}
+	}
+	return nil
+}
+
+func (u *upRun) upExec(ctx context.Context, net *simreg.Net, done chan<- struct{}, rerr *error) {
+	defer close(done)
+	u.mu.Lock()
+	u.gid = goid()
+	u.mu.Unlock()
+	up := config.HostNewName(l2Up)
+	up.Hostname, up.TLS = l2Up, config.TLSDisabled
+	di := 2 * time.Millisecond
+	rg := reg.New(reg.WithConfigHosts([]*config.Host{up}), reg.WithHTTPClient(net.Client()),
+		reg.WithDelay(di, 4*di), reg.WithRetryLimit(u.s.R), reg.WithBlobSize(int64(u.s.C*upUnit), 1),
+		reg.WithSlog(slog.New(slog.NewTextHandler(io.Discard, &slog.HandlerOptions{}))))
+	r, err := ref.New(l2Up + "/" + l2Repo)
+	if err != nil {
+		fatal("%v", err)
+	}
+	blob := fill(u.s.B*upUnit, 'u')
+	_, *rerr = rg.BlobPut(ctx, r, desc(mtLayer, blob), bytes.NewReader(blob))
+}
+
+func runUp(s *upScn) *vtrace.Trace {
+	if s.R <= 0 {
+		s.R = 3
+	}
+	u := &upRun{s: s, clk: newClock(), ta: map[int]int64{}, tr: map[int]int64{}, capped: map[int]bool{},
+		counts: map[string]int{}, cap: 16 * (s.R + 1)}
+	net := simreg.NewNet()
+	h := net.AddHost(l2Up, simreg.DefaultFeatures())
+	h.Intercept = u.intercept
+	h.After = func(rq *simreg.Request) {
+		now := u.clk.now()
+		u.mu.Lock()
+		u.tr[rq.Seq], u.active = now, now
+		u.mu.Unlock()
+	}
+	ctx, cancel := context.WithCancel(context.Background())
+	defer cancel()
+	done := make(chan struct{})
+	var rerr error
+	u.active = u.clk.now()
+	tc := u.clk.now()
+	go u.upExec(ctx, net, done, &rerr)
+	meta := map[string]any{"mode": "up", "predicted": s.Predicted}
+	tick := time.NewTicker(20 * time.Millisecond)
+	defer tick.Stop()
+	parked := 0
+	hang := ""
+wait:
+	for {
+		select {
+		case <-done:
+			break wait
+		case <-tick.C:
+			u.mu.Lock()
+			idle, gid := u.clk.now()-u.active, u.gid
+			u.mu.Unlock()
+			if idle < 200000 {
+				parked = 0
+				continue
+			}
+			if ok, _ := parkedIn(gid, "pqueue.(*Queue"); ok {
+				parked++
+				if parked >= 3 {
+					hang = "throttle"
+					cancel()
+					<-done
+					break wait
+				}
+				continue
+			}
+			parked = 0
+			if idle > 60000000 {
+				meta["stall"] = fmt.Sprintf("no activity for %d us", idle)
+				cancel()
+				break wait
+			}
+		}
+	}
+	te := u.clk.now()
+	hdr := map[string]any{"R": s.R, "D": 2000, "up": l2Up, "hosts": []string{l2Up}, "prio": []int{0},
+		"slack": 500000, "waive": []string{}, "layer": 2}
+	evs := []vtrace.Event{{"ev": "op", "name": "blob-put-scripted", "tc": tc}}
+	log := net.Log()
+	sort.SliceStable(log, func(i, j int) bool { return log[i].Seq < log[j].Seq })
+	outcome := "done"
+	if rerr != nil {
+		outcome = "fail"
+	}
+	for _, rq := range log {
+		u.mu.Lock()
+		ta, okA := u.ta[rq.Seq]
+		tr, okR := u.tr[rq.Seq]
+		capped := u.capped[rq.Seq]
+		u.mu.Unlock()
+		if !okR {
+			tr = ta
+		}
+		if !okA {
+			ta = tr
+		}
+		k := statusKind(rq.Status, rq.RespHeader.Get("Retry-After"), rq.Truncated)
+		if capped {
+			k, outcome = "cap", "runaway"
+		}
+		sig := rq.Method + " " + rq.Path
+		if q := rq.Query.Encode(); q != "" {
+			sig += "?" + q
+		}
+		evs = append(evs, vtrace.Event{"ev": "att", "id": "-", "h": rq.Host, "ta": ta, "tr": tr, "k": k, "ra": 0,
+			"mut": bit(isMut(rq.Method)), "mir": 0, "sig": sig, "inj": bit(rq.Faulted && !capped), "st": rq.Status,
+			"cl": rq.Class, "seq": rq.Seq, "crng": rq.Header.Get("Content-Range"), "note": rq.Note,
+			"rrng": rq.RespHeader.Get("Range")})
+	}
+	if hang != "" {
+		evs = append(evs, vtrace.Event{"ev": "hang", "id": "-", "where": hang, "t": te})
+		outcome = "hang"
+	}
+	evs = append(evs, vtrace.Event{"ev": "result", "eqret": 1, "eqstate": 1, "ret": outcome, "t": te})
+	meta["outcome"] = outcome
+	// the spec abstracts the final PUT (the scripted registry stored nothing, so it fails): only
+	// "keeps repeating" versus "returns" is compared
+	meta["exact"] = (outcome == "runaway") == (s.Predicted == "runaway")
+	meta["n"] = len(log)
+	return &vtrace.Trace{ID: s.ID, Header: hdr, Events: evs, Meta: meta}
+}
